@@ -1,6 +1,8 @@
 (* C16 — property theorems only.  Statements are full; proofs are [exact lemma]. *)
 From Coq Require Import List NArith Bool.
-From LE Require Import Exec.EventLog Exec.TxExec Exec.TxExecProofs Exec.StateRoot Exec.StateRootProofs.
+From Coq Require Import Permutation.
+From LE Require Import SMT.Spec SMT.Tree SMT.TreeProofs.
+From LE Require Import Exec.EventLog Exec.TxExec Exec.TxExecProofs Exec.StateRoot Exec.StateRootProofs Exec.CacheProofs Exec.Recovery Exec.RootProofs.
 Import ListNotations.
 Local Open Scope N_scope.
 
@@ -66,3 +68,116 @@ Example C16_failed_command_example :
   | _ => False
   end.
 Proof. vm_compute. split; reflexivity. Qed.
+
+(* whatever the transactions of a block do (any scripts over module-store keys, any snapshots/restores, any mix of
+   failing and succeeding commands, hooks, unknown commands), the cache handed to Commit has distinct keys and every
+   entry remembers the persisted value of its key — the precondition of the commit theorems below *)
+Theorem C16_block_cache_good : forall s height txs c v c' v',
+  Forall tx_wf txs -> cache_good s c -> snaps_good s v -> exec_txs s height c v txs = (c', v') -> cache_good s c'.
+Proof. exact block_cache_good. Qed.
+
+(* ---- state root.  The sparse Merkle tree is abstract: tree states TR, Trie.Update = tree_update, root = tree_root.
+   The only fact assumed about it is H_C10, which is C10_root_is_function_of_map (Properties/C10.v) verbatim with the
+   trie of coq/SMT/Tree.v replaced by the variables; see C16_composed_with_C10 below, where it is discharged by C10. *)
+Section C16Root.
+  Variable hash : bytes -> bytes.                 (* SHA-256 *)
+  Variable enc : bytes -> Spec.key.               (* bytes.ToBools *)
+  Variable TR R : Type.
+  Variable root_eqb : R -> R -> bool.
+  Variable tree_update : TR -> list (@op bytes) -> TR.
+  Variable tree_root : TR -> R.
+  Variable tree_empty : TR.
+  Variable n : nat.                               (* trie key length in bits *)
+  Variable empty_root : R.
+  Hypothesis hash_inj : forall a b, hash a = hash b -> a = b.
+  Hypothesis enc_inj : forall a b, enc a = enc b -> a = b.
+  Hypothesis enc_len : forall k t, tree_key hash k = Some t -> length (enc t) = n.
+  Hypothesis root_eqb_spec : forall a b, root_eqb a b = true <-> a = b.
+  Hypothesis empty_root_spec : empty_root = tree_root tree_empty.
+  Hypothesis H_C10 : forall h1 h2 : list (list (@op bytes)),
+    keys_ok n h1 -> keys_ok n h2 ->
+    (forall k, mget k (fold_left map_batch h1 []) = mget k (fold_left map_batch h2 [])) ->
+    tree_root (fold_left tree_update h1 tree_empty) = tree_root (fold_left tree_update h2 tree_empty).
+
+  Notation Inv := (Inv hash enc TR R tree_update tree_empty n).
+  Notation Good := (Good hash enc TR R tree_update tree_root tree_empty n empty_root).
+  Notation img := (img hash enc).
+  Notation commit := (commit hash enc root_eqb tree_update tree_root).
+  Notation revert := (revert hash enc root_eqb tree_update tree_root).
+  Notation init := (init hash enc root_eqb tree_update tree_root empty_root).
+  Notation reach := (reach hash enc TR R root_eqb tree_update tree_root tree_empty empty_root).
+
+  (* the state root committed for a block is the sparse Merkle root of the resulting state, deleted keys absent:
+     the new state is the staged view; the returned root is the root of EVERY history of batches whose map is the tree
+     image {tree_key k |-> hash v | k |-> v in the state} — a key absent from the state contributes nothing *)
+  Theorem C16_commit_root_is_smt_of_state : forall a hist c height prev expected a' r,
+    Inv a hist -> cache_good (a_state a) c -> root_eqb prev (tree_root (a_tree a)) = true ->
+    commit a c height prev expected false = COk a' r ->
+    exists ops, Inv a' (hist ++ [ops]) /\ r = tree_root (a_tree a') /\
+      (forall k, lookup (a_state a') k = view (a_state a) c k) /\
+      a_tree_state a' = Some (height, r) /\
+      a_diffs a' = put_diff (a_diffs a) height (snd (commit_cache c)) /\
+      (forall h2, keys_ok n h2 -> img (a_state a') (fold_left map_batch h2 []) ->
+                  r = tree_root (fold_left tree_update h2 tree_empty)).
+  Proof. exact (commit_root_is_smt_of_state hash enc TR R root_eqb tree_update tree_root tree_empty n hash_inj enc_inj enc_len H_C10). Qed.
+
+  Theorem C16_commit_never_panics : forall a hist c height prev expected dry,
+    Inv a hist -> cache_good (a_state a) c -> root_eqb prev (tree_root (a_tree a)) = true ->
+    match commit a c height prev expected dry with COk _ _ | CMismatch _ => True | _ => False end.
+  Proof. exact (commit_never_panics hash enc TR R root_eqb tree_update tree_root tree_empty n hash_inj enc_inj enc_len). Qed.
+
+  (* reverting the block just committed restores every key's binding and the previous root (and the tree-state record) *)
+  Theorem C16_revert_restores_state_and_root : forall a H sts c a' r expected,
+    Good a H sts -> cache_good (a_state a) c -> H + 1 < 2 ^ 32 ->
+    commit a c (H + 1) (tree_root (a_tree a)) None false = COk a' r ->
+    exists a'', (forall k, lookup (a_state a'') k = lookup (a_state a) k) /\
+                tree_root (a_tree a'') = tree_root (a_tree a) /\
+                a_tree_state a'' = Some (H, tree_root (a_tree a)) /\
+                revert a' (H + 1) r expected =
+                if match expected with Some x => negb (root_eqb (tree_root (a_tree a)) x) | None => false end
+                then RMismatch (tree_root (a_tree a)) else ROk a'' (tree_root (a_tree a)).
+  Proof. exact (revert_restores_state_and_root hash enc TR R root_eqb tree_update tree_root tree_empty n hash_inj enc_inj enc_len root_eqb_spec H_C10 empty_root). Qed.
+
+  (* restart recovery: with the engine at last <= H, Init rolls the application back to the state it had at [last]
+     (Good ... last (the chain from that level on)), never fails on the way, and answers IOk exactly when the engine's
+     root is the root of that state *)
+  Theorem C16_init_recovers_to_engine_tip : forall a H sts last last_root, Good a H sts -> last <= H ->
+    (N.to_nat (H - last) < length sts)%nat ->
+    exists a', Good a' last (skipn (N.to_nat (H - last)) sts) /\ a_diffs a' = a_diffs a /\
+               init a last last_root = if root_eqb (tree_root (a_tree a')) last_root then IOk a' else IConflict a'.
+  Proof. exact (init_recovers_to_engine_tip hash enc TR R root_eqb tree_update tree_root tree_empty n hash_inj enc_inj enc_len root_eqb_spec H_C10 empty_root empty_root_spec). Qed.
+
+  Theorem C16_init_succeeds_on_matching_root : forall a H sts last b hb, Good a H sts -> last <= H ->
+    (N.to_nat (H - last) < length sts)%nat -> Inv b hb ->
+    (forall k, lookup (a_state b) k = lookup (nth (N.to_nat (H - last)) sts []) k) ->
+    exists a', init a last (tree_root (a_tree b)) = IOk a' /\ Good a' last (skipn (N.to_nat (H - last)) sts).
+  Proof. exact (init_succeeds_on_matching_root hash enc TR R root_eqb tree_update tree_root tree_empty n hash_inj enc_inj enc_len root_eqb_spec H_C10 empty_root empty_root_spec). Qed.
+
+  Theorem C16_init_behind : forall a H sts last last_root, Good a H sts -> H < last -> init a last last_root = IBehind.
+  Proof. exact (init_behind hash enc TR R root_eqb tree_update tree_root tree_empty n empty_root empty_root_spec). Qed.
+
+  (* for ALL sequences of blocks (any transactions), reverts and restarts from the empty database: the database is Good
+     — consistent with a history of tree batches (so its root is the SMT root of its state), tree-state record at the
+     application height, and every earlier state of the chain still reachable by Revert / Init *)
+  Theorem C16_every_reachable_db_is_good : forall a H, reach a H ->
+    exists sts, Good a H sts /\ length sts = S (N.to_nat H) /\ diff_at (a_diffs a) 0 = None.
+  Proof. exact (reach_good hash enc TR R root_eqb tree_update tree_root tree_empty n hash_inj enc_inj enc_len root_eqb_spec H_C10 empty_root empty_root_spec). Qed.
+End C16Root.
+
+(* composition with C10: for the trie of coq/SMT/Tree.v (any abstract hash functions) the hypothesis H_C10 IS
+   TreeProofs.root_is_function_of_map (= C10_root_is_function_of_map), so no assumption about the tree remains *)
+Theorem C16_composed_with_C10 :
+  forall (hash : bytes -> bytes) (enc : bytes -> Spec.key) (Hsh : Type) (hempty : Hsh) (hleaf : Spec.key -> bytes -> Hsh)
+         (hbranch : Hsh -> Hsh -> Hsh) (heqb : Hsh -> Hsh -> bool) (n : nat),
+    (forall a b, hash a = hash b -> a = b) -> (forall a b, enc a = enc b -> a = b) ->
+    (forall k t, tree_key hash k = Some t -> length (enc t) = n) ->
+    (forall a b, heqb a b = true <-> a = b) ->
+    forall a H,
+      reach hash enc (@T bytes) Hsh heqb (batch_update n) (Tree.hash hempty hleaf hbranch) E hempty a H ->
+      exists sts, Good hash enc (@T bytes) Hsh (batch_update n) (Tree.hash hempty hleaf hbranch) E n hempty a H sts /\
+                  length sts = S (N.to_nat H) /\ diff_at (a_diffs a) 0 = None.
+Proof.
+  intros hash enc Hsh hempty hleaf hbranch heqb n Hh He Hl Hq a H Hr.
+  exact (reach_good hash enc (@T bytes) Hsh heqb (batch_update n) (Tree.hash hempty hleaf hbranch) E n Hh He Hl Hq
+           (@root_is_function_of_map bytes Hsh hempty hleaf hbranch n) hempty eq_refl a H Hr).
+Qed.
